@@ -45,7 +45,7 @@ PROPS = {
         module="OrbitModel.Properties.C01",
         theorems=["Orbit.C01.same_entries_same_listing"],
         families=[("kv", 60, 1500, 14), ("doc", 40, 1000, 12), ("log", 40, 1000, 14), ("routes", 40, 1000, 12), ("reload", 40, 1000, 12)],
-        corr_fields={"values", "heads", "idx", "len", "time", "next", "load"},
+        corr_fields={"values", "heads", "idx", "len", "time", "next", "load", "rev"},
         nontrivial=nt_multiwriter_merge,
         rule="PRNG histories of 1-4 writers on kv/doc/eventlog stores with interleaved Sync deliveries in random order; plus histories over every route (announce, exchange-on-join, Sync, reload after restart) with writes continuing after restarts; every observation of every replica is keyed by its entry set and compared with every other observation of the same set in the scenario; the Lamport time and parents of every new entry are compared with the model's (a writer re-using a (time, id) pair breaks the property's tie-freedom premise); non-trivial = >=2 writers, >=1 merged batch, >=3 entries",
         trusted_base=LOGCORE,
@@ -56,7 +56,7 @@ PROPS = {
         theorems=["Orbit.C03.visible_entries_are_authored_by_writers", "Orbit.C03.forged_or_unauthorised_never_visible",
                   "Orbit.C03.local_write_by_non_writer_fails", "Orbit.C03.pinned_tree_accepts_copied_id"],
         families=[("forge", 150, 4000, 10)],
-        corr_fields={"values", "heads", "idx", "len", "ack", "sync", "loadq"},
+        corr_fields={"values", "heads", "idx", "len", "ack", "sync", "loadq", "rev"},
         nontrivial=lambda lines: sum(1 for l in lines if l.startswith("forged ") and " err" not in l) >= 1 and sum(1 for l in lines if l.startswith("op inject")) >= 1,
         rule="write lists of every shape (explicit ids, wildcard, creator only, attacker included) x non-writer local writes x forged-author recipes (own identity, copied writer id, copied identity block, foreign key, 13 single-field tamperings, other database, wrong address) built with the real entry package and a second signer, delivered by manual sync / pubsub / direct channel, alone, mixed with valid heads at either end, or hidden behind a colluding writer's entry; the flags the model uses (signature valid, address valid, identity block genuine) are measured on the real objects; every listed entry on every replica must be authored by a writer; non-trivial = at least one forged entry injected",
         trusted_base=["crypto: signatures unforgeable, identity block genuine iff it is the writer's (measured by byte equality in the harness)"],
@@ -68,7 +68,7 @@ PROPS = {
                   "Orbit.C04.batch_merges_only_verified", "Orbit.C04.misaddressed_head_refused",
                   "Orbit.C04.listed_entries_are_members", "Orbit.C04.pinned_foreign_entry_becomes_head"],
         families=[("forge", 150, 4000, 10)],
-        corr_fields={"values", "heads", "idx", "len", "sync", "loadq"},
+        corr_fields={"values", "heads", "idx", "len", "sync", "loadq", "rev"},
         nontrivial=lambda lines: sum(1 for l in lines if l.startswith("forged ") and " err" not in l) >= 1 and sum(1 for l in lines if l.startswith("op inject")) >= 1,
         rule="same family as C03: every single-field mutation of the wire form (payload, clock time, clock id, next, refs, key, signature, identity id / key / signatures, log id, claimed hash) and entries of another database, as announced head and as ancestor; every listed entry must verify, be well addressed and belong to the database; Len() must equal the listing; earlier listings must survive",
         trusted_base=["content addressing: a block fetched by address has that address (HashDet)"],
@@ -78,7 +78,7 @@ PROPS = {
         module="OrbitModel.Properties.C05",
         theorems=["Orbit.C05.reload_sources_tied_to_go_text", "Orbit.C05.persistence_order_tied_to_go_text", "Orbit.C05.acknowledged_survive_any_crash", "Orbit.C05.cached_heads_cover_the_log"],
         families=[("routes", 100, 3000, 14), ("kv", 40, 1000, 12), ("reload", 40, 1000, 12)],
-        corr_fields={"values", "heads", "idx", "len", "local", "remote", "load"},
+        corr_fields={"values", "heads", "idx", "len", "local", "remote", "load", "rev"},
         nontrivial=lambda lines: any(l.startswith("restarted ") for l in lines) and sum(1 for l in lines if l.startswith("entry ")) >= 2,
         rule="histories of writes and replications by every route with instance restarts (close everything, new instance on the same keystore and cache, Load(-1)) at PRNG-chosen moments; after every step the cached heads must cover the whole log (the crash-prefix invariant) and after every restart the identity must be the same and the recovered state must equal the pre-restart state; non-trivial = at least one restart with >= 2 entries",
         trusted_base=["each persistence effect is durable and atomic once its call returns (the property's assumption)", "in-memory datastores owned by the harness stand for leveldb directories"],
@@ -124,7 +124,7 @@ PROPS = {
         module="OrbitModel.Properties.C02",
         theorems=["Orbit.C02.parent_walk_tied_to_go_text", "Orbit.C02.every_replica_gets_every_write", "Orbit.C02.held_never_shrinks", "Orbit.C02.final_phase_exists"],
         families=[("routes", 120, 4000, 14), ("reload", 30, 800, 12)],
-        corr_fields={"values", "heads", "exchange", "local", "remote", "load", "len", "loadq"},
+        corr_fields={"values", "heads", "exchange", "local", "remote", "load", "len", "loadq", "rev"},
         nontrivial=nt_multiwriter_merge,
         rule="PRNG scripts on 2-4 replicas: writes, manual syncs, announcements delivered late/twice/out of order, exchange-on-join (delivered, dropped, duplicated), link cuts and heals, instance restarts; final phase heals every link and exchanges heads for every ordered pair; every replica must then list every acknowledged write; non-trivial = >=2 writers, >=1 merged batch, >=3 entries",
         trusted_base=["set-level network model (Model/Net.lean); scripted pubsub/direct channel/bitswap replace libp2p (runtime not modelled)"],
@@ -135,7 +135,7 @@ PROPS = {
         theorems=["Orbit.C09.other_databases_untouched", "Orbit.C09.broadcast_changes_only_the_source",
                   "Orbit.C09.published_under_own_address", "Orbit.C09.pinned_tree_cross_talk"],
         families=[("multidb", 100, 3000, 10)],
-        corr_fields={"values", "heads", "idx", "len", "status", "loadq"},
+        corr_fields={"values", "heads", "idx", "len", "status", "loadq", "rev"},
         nontrivial=lambda lines: sum(1 for l in lines if l.startswith("opened ")) >= 1 and sum(1 for l in lines if l.startswith("ack ")) >= 2,
         rule="2-4 databases of mixed types and write lists opened on the same 2-4 instances (default shared event bus); PRNG writes, manual syncs and announcement deliveries in one database at a time; every database on every peer is observed (contents, index, status, per-address store-event counters) after every step and must be unchanged unless it was the one operated on; every announcement's topic, address and entries must belong to one database; non-trivial = >= 2 databases and >= 2 writes",
         trusted_base=["libp2p eventbus delivers every event to every subscriber of its type (modelled as broadcast)"],
@@ -146,7 +146,7 @@ PROPS = {
         theorems=["Orbit.C10.parent_walk_tied_to_go_text", "Orbit.C10.sync_order_tied_to_go_text", "Orbit.C10.rejected_never_block", "Orbit.C10.valid_entries_of_a_mixed_batch_are_merged", "Orbit.C10.refused_heads_are_never_fetched",
                   "Orbit.C10.refused_head_was_fetched_before_the_fix", "Orbit.C10.pinned_tree_blocks_valid"],
         families=[("forge", 150, 4000, 10)],
-        corr_fields={"values", "heads", "idx", "len", "sync", "loadq"},
+        corr_fields={"values", "heads", "idx", "len", "sync", "loadq", "rev"},
         nontrivial=lambda lines: any(l.startswith("op inject") and "," in l.split("heads=")[1].split()[0] for l in lines if "heads=" in l) or any("extra=" in l for l in lines),
         rule="forged / tampered / foreign heads mixed with valid heads at either end of one announcement, or hidden behind a colluding writer's entry, by every route, in several announcements; then an honest re-announcement (every replica syncs from every other twice): every acknowledged valid write must be listed everywhere; non-trivial = a mixed announcement or a hidden forged ancestor",
         trusted_base=["Model/Replicator.lean transition system (hand-written, validated end-to-end by the harness); liveness stated for the canonical fair scheduler, safety for every schedule"],
@@ -157,7 +157,7 @@ PROPS = {
         theorems=["Orbit.C11.parent_walk_tied_to_go_text", "Orbit.C11.slots_are_conserved", "Orbit.C11.no_hole_is_forgotten", "Orbit.C11.at_rest_means_complete", "Orbit.C11.later_request_completes",
                   "Orbit.C11.at_most_two_requests", "Orbit.C11.unclean_request_can_miss", "Orbit.C11.pinned_tree_wedges"],
         families=[("cancel", 120, 3000, 8)],
-        corr_fields={"values", "heads", "len", "loadq"},
+        corr_fields={"values", "heads", "len", "loadq", "rev"},
         nontrivial=lambda lines: any(l.startswith("op cancel") or "ctx=cancelled" in l or l.startswith("op failget") for l in lines),
         rule="1-3 replication requests per scenario, each cancelled or failing at a PRNG-chosen point: context already cancelled; cancelled while its worker is held just before asking for a slot (hook); cancelled while a block fetch is held at the gate; cancelled while a worker is held between fetch and join (hook); block unavailable; or not at all; after each request the replicator is run to quiescence (decided from its bookkeeping) and its counters printed; then an uncancelled Sync of the source's (possibly newer) heads must complete and list everything; non-trivial = at least one cancelled or failing request",
         trusted_base=["Model/Replicator.lean transition system (hand-written, validated end-to-end); goroutine steps are atomic under the replicator mutex (assumed)", "wall-clock timeouts are modelled as cancellation at a point"],
@@ -169,7 +169,7 @@ PROPS = {
                   "Orbit.C12.later_valid_messages_handled", "Orbit.C12.listener_loop_handles_every_message", "Orbit.C12.a_loop_that_left_on_error_would_drop_later_messages", "Orbit.C12.no_length_prefix_panics",
                   "Orbit.C12.frame_guard_tied_to_go_text", "Orbit.C12.pinned_tree_panics"],
         families=[("garbage", 120, 4000, 10), ("transport", 40, 1500, 6)],
-        corr_fields={"values", "heads", "idx", "len", "loadq"},
+        corr_fields={"values", "heads", "idx", "len", "loadq", "rev"},
         nontrivial=lambda lines: sum(1 for l in lines if l.startswith("op garbage") and "kind=valid" not in l) >= 2,
         rule="structurally enumerated malformed exchange-heads messages (null / empty / ill-typed / partial heads, every subset of missing identity/clock/hash/next/refs/key/sig fields, truncations and bit flips of real messages, random bytes, deep nesting, wrong address) on the pubsub topic and the direct channel, interleaved with writes and valid messages; the process must survive (a panic is attributed to the running scenario), state must stay explained by valid entries, later valid messages must be handled; non-trivial = >= 2 malformed messages",
         trusted_base=["the bytes -> structure step of encoding/json is observed, not modelled"],
@@ -264,7 +264,7 @@ PROPS = {
         theorems=["Orbit.C19.never_regresses", "Orbit.C19.progress_le_max", "Orbit.C19.at_rest_equals_len",
                   "Orbit.C19.pinned_tree_max_regresses", "Orbit.C19.tied_to_go_text", "Orbit.C19.status_raised_with_the_append_tied_to_go_text", "Orbit.C19.foreign_heads_are_not_counted", "Orbit.C19.foreign_head_was_counted_before_the_fix"],
         families=[("status", 80, 2500, 8), ("kv", 40, 1000, 14), ("routes", 40, 1000, 12)],
-        corr_fields={"status", "len"},
+        corr_fields={"status", "len", "rev"},
         nontrivial=nt_any3,
         rule="mid-flight sampling: several writers' branches announced one by one to an observer while some fetches are held at a gate, observed after every step; plus status sampled after every step at quiescence on every replica of single- and multi-writer histories: never decreases; at rest with a complete log progress = max within [max Lamport time, entry count]",
         trusted_base=[],
